@@ -68,6 +68,97 @@ pub fn spawn(bin: &str, cfg: &Cfg) -> Option<Proc> {
     None
 }
 
+/// the harness's own reading of a size with a unit (bytes; SI = powers of 1000, binary = powers of 1024; case-insensitive)
+pub fn size_bytes(s: &str) -> Option<u64> {
+    let t = s.to_ascii_lowercase();
+    let digits: String = t.chars().take_while(|c| c.is_ascii_digit()).collect();
+    let n: u64 = digits.parse().ok()?;
+    let m = match &t[digits.len()..] {
+        "kb" => 1000,
+        "kib" => 1024,
+        "mb" => 1000 * 1000,
+        "mib" => 1024 * 1024,
+        "gb" => 1000 * 1000 * 1000,
+        "gib" => 1024 * 1024 * 1024,
+        _ => return None, // a bare number is not probed: the option's help text says megabytes, the parser reads bytes
+    };
+    Some(n * m)
+}
+
+/// C14 / C15 through the command line: a fresh process with `--eviction-policy random --memory-limit <spelling>`. Records of
+/// 1000 value bytes (1024 accounted) under fresh keys: while they total half the limit every one must still be there; after
+/// twice the limit has been stored the survivors must fit the limit plus one record.
+fn memory_probe(bin: &str, cfg: &Cfg, viols: &mut Vec<(Vec<&'static str>, String)>) {
+    let Some(limit) = size_bytes(cfg.memory) else { return };
+    if cfg.eviction != "random" || limit > (2 << 20) {
+        return;
+    }
+    let mut c2 = cfg.clone();
+    c2.port = crate::net::free_port();
+    let Some(_p) = spawn(bin, &c2) else { return };
+    let Ok(mut s) = TcpStream::connect(("127.0.0.1", c2.port)) else { return };
+    s.set_nodelay(true).ok();
+    let rec = 1024u64;
+    let store = |s: &mut TcpStream, from: u64, to: u64| {
+        let mut b = vec![];
+        for i in from..to {
+            b.extend(wire::set_like(op::SETQ, format!("m{}", i).as_bytes(), &vec![b'm'; 1000], 0, 0, 0, i as u32).bytes());
+        }
+        b.extend(wire::bare(op::NOOP, 0xfffe).bytes());
+        let _ = s.write_all(&b);
+        read_until_noop(s, 0xfffe)
+    };
+    let count = |s: &mut TcpStream, n: u64| -> u64 {
+        let mut b = vec![];
+        for i in 0..n {
+            b.extend(wire::key_only(op::GETQ, format!("m{}", i).as_bytes(), 0, i as u32).bytes());
+        }
+        b.extend(wire::bare(op::NOOP, 0xfffd).bytes());
+        let _ = s.write_all(&b);
+        let out = read_until_noop(s, 0xfffd);
+        wire::split_resps(&out).map_or(0, |fr| fr.iter().filter(|f| wire::parse_resp(f).map_or(false, |r| r.opcode == op::GETQ && r.status == 0)).count() as u64)
+    };
+    let n1 = limit / 2 / rec;
+    let errs = store(&mut s, 0, n1);
+    let e1 = wire::split_resps(&errs).map_or(0, |fr| fr.len().saturating_sub(1));
+    let hits1 = count(&mut s, n1);
+    if hits1 != n1 || e1 != 0 {
+        viols.push((vec!["C15", "C20"], format!("--memory-limit {} ({} bytes), eviction policy random: of {} records of {} bytes under fresh keys ({} bytes in all, half the limit) only {} are still there ({} stores answered with an error)", cfg.memory, limit, n1, rec, n1 * rec, hits1, e1)));
+        return;
+    }
+    let n2 = 2 * limit / rec + 2;
+    store(&mut s, n1, n2);
+    let hits2 = count(&mut s, n2);
+    if hits2 * rec > limit + rec {
+        viols.push((vec!["C14", "C20"], format!("--memory-limit {} ({} bytes), eviction policy random: after {} records of {} bytes under fresh keys, {} are still there: {} bytes stored, above the limit plus one record", cfg.memory, limit, n2, rec, hits2, hits2 * rec)));
+    }
+}
+
+fn read_until_noop(s: &mut TcpStream, opaque: u32) -> Vec<u8> {
+    let mut out = vec![];
+    let mut buf = [0u8; 65536];
+    let t0 = Instant::now();
+    s.set_read_timeout(Some(Duration::from_millis(50))).ok();
+    while t0.elapsed() < Duration::from_secs(20) {
+        match s.read(&mut buf) {
+            Ok(0) => break,
+            Ok(n) => {
+                out.extend_from_slice(&buf[..n]);
+                // the noop's answer is the last 24 bytes once it has arrived
+                if out.len() >= 24 {
+                    let t = &out[out.len() - 24..];
+                    if t[0] == 0x81 && t[1] == op::NOOP && t[12..16] == opaque.to_be_bytes() {
+                        break;
+                    }
+                }
+            }
+            Err(e) if e.kind() == std::io::ErrorKind::WouldBlock || e.kind() == std::io::ErrorKind::TimedOut => {}
+            Err(_) => break,
+        }
+    }
+    out
+}
+
 fn read_until_close(s: &mut TcpStream, max: Duration) -> Vec<u8> {
     let mut out = vec![];
     let mut buf = [0u8; 65536];
@@ -151,9 +242,13 @@ pub fn matrix(seed: u64, thorough: bool) -> Vec<Cfg> {
     // values that do not fit 16 / 32 bits: a connection limit above 65535, memory limits of 4 GiB and more (not reached)
     let rt = *rng.pick(&["current-thread", "multi-thread"]);
     v.push(Cfg { runtime: rt, threads: 2, eviction: "random", item_limit: 65536, conn_limit: *rng.pick(&[65536u32, 65537, 65539, 131072]), port, memory: *rng.pick(&["4GiB", "8GiB", "4294968296", "16GiB"]) });
-    // an item size limit above the default of 1 MiB (the documented range is 1k..1024m), not always a power of two
+    // a memory limit that is reached, spelled with a unit in different ways (upper / lower case, SI and binary): the limit
+    // enforced must be the one configured (C14 from above, C15 from below; see `memory_probe`)
     let rt = *rng.pick(&["current-thread", "multi-thread"]);
-    v.push(Cfg { runtime: rt, threads: 2, eviction: *rng.pick(&["none", "random"]), item_limit: *rng.pick(&[2097152u32, 3145728, 5000000, 1048577]), conn_limit: 1024, port: crate::net::free_port(), memory: "64MiB" });
+    v.push(Cfg { runtime: rt, threads: 2, eviction: "random", item_limit: 65536, conn_limit: 1024, port: crate::net::free_port(), memory: *rng.pick(&["64KB", "64kb", "100KiB", "1mb", "250kB", "1MiB", "300kib"]) });
+    // an item size limit above the default of 1 MiB (the documented range is 1k..1024m) that is not a whole number of KiB
+    let rt = *rng.pick(&["current-thread", "multi-thread"]);
+    v.push(Cfg { runtime: rt, threads: 2, eviction: *rng.pick(&["none", "random"]), item_limit: *rng.pick(&[5000000u32, 1048577, 3000001, 2500000, 2097153]), conn_limit: 1024, port: crate::net::free_port(), memory: "64MiB" });
     v
 }
 
@@ -308,6 +403,8 @@ fn run_one(bin: &str, cfg: &Cfg, programs: &[Vec<u8>]) -> (Vec<String>, Vec<Stri
                     viols.push((vec!["C20", "C17"], format!("{} of {} simultaneous connections are served under --connection-limit {}", served, nconn, cfg.conn_limit)));
                 }
             }
+            // --- the configured memory limit is the one enforced
+            memory_probe(bin, cfg, &mut viols);
             // --- expiry follows real elapsed seconds
             if !ttl_probe_done {
                 ttl_probe_done = true;
